@@ -761,6 +761,19 @@ class AddressCommand(TestCommand):
         {"name": "key-list", "type": ["string", "stringlist"], "required": True},
     ]
 
+    def args_as_tuple(self):
+        """Return arguments as a list."""
+        result = ("address", self.arguments["match-type"])
+        for name in ("header-list", "key-list"):
+            value = self.arguments[name]
+            if isinstance(value, list):
+                result += ([item.strip('"') for item in value],)
+            elif value.startswith("["):
+                result += (tools.to_list(value),)
+            else:
+                result += (value.strip('"'),)
+        return result
+
 
 class AllofCommand(TestCommand):
     accept_children = True
